@@ -14,6 +14,7 @@ const V_SIGNING: u32 = 2;
 const V_REFRESH_DEALER: u32 = 3;
 const V_REPAIR: u32 = 4;
 const V_PARAM_GRID: u32 = 5; // secret packages with boundary (min,max): aux = grid index
+const V_SIZE: u32 = 6; // large real state (t = n = aux coefficients): encodings far beyond the sizes any test saves
 
 pub const GRID: [u16; 9] = [2, 3, 127, 128, 255, 256, 300, 32768, 65535];
 
@@ -36,6 +37,11 @@ pub fn cases(thorough: bool, seed: u64) -> Vec<Params> {
                 }
             }
         }
+    }
+    // sizes around the length-prefix and total-length boundaries of the binary encoding
+    let sizes: &[u64] = if thorough { &[127, 128, 129, 255, 256, 257, 511, 512, 1023, 1024, 1025, 2047, 2048, 2049, 4096] } else { &[128, 1024, 2049] };
+    for &sz in sizes {
+        out.push(Params { n: sz as u16, t: sz as u16, ids: IdSet::Default, subset: vec![], variant: V_SIZE, aux: sz, seed });
     }
     for i in 0..(GRID.len() * GRID.len()) as u64 {
         out.push(Params { n: 0, t: 0, ids: IdSet::Default, subset: vec![], variant: V_PARAM_GRID, aux: i, seed });
@@ -89,6 +95,33 @@ pub fn run<C: Ciphersuite, L: Lab<C>>(lab: &mut L, p: &Params) {
                 let kp = KeyPackage::<C>::new(id, fc::keys::SigningShare::new(c0), fc::keys::VerifyingShare::new(e), fc::VerifyingKey::new(e), min);
                 if let Some(r) = persist!(lab, js, kp, KeyPackage<C>, "key package") {
                     lab.check(*r.min_signers() == min && r == kp, "restored key package equals the saved one");
+                }
+            }
+            lab.leave();
+        }
+        V_SIZE => {
+            lab.enter("large-state");
+            let t = p.aux as u16;
+            let id = Identifier::<C>::try_from(3u16).unwrap();
+            for refresh in [false, true] {
+                let r = if refresh { refresh_dkg_part1::<C, _>(id, t, t, &mut *lab.rng()) } else { dkg::part1::<C, _>(id, t, t, &mut *lab.rng()) };
+                let Ok((sp1, pk1)) = r else {
+                    lab.check(false, "round one runs for a large threshold");
+                    continue;
+                };
+                let what = if refresh { "refresh round-one secret package" } else { "dkg round-one secret package" };
+                for js in [false, true] {
+                    if let Some(r) = persist!(lab, js, sp1, round1::SecretPackage<C>, what) {
+                        lab.check(r == sp1, &format!("restored {what} with {t} coefficients equals the saved one"));
+                    }
+                    if let Some(r) = persist!(lab, js, pk1, round1::Package<C>, "round-one package") {
+                        lab.check(r == pk1, "restored round-one package equals the saved one");
+                    }
+                    let share = lab.scalar("share");
+                    let sp2 = round2::SecretPackage::<C>::new(id, pk1.commitment().clone(), share, t, t);
+                    if let Some(r) = persist!(lab, js, sp2, round2::SecretPackage<C>, "round-two secret package") {
+                        lab.check(r == sp2, &format!("restored round-two secret package with a {t}-entry commitment equals the saved one"));
+                    }
                 }
             }
             lab.leave();
